@@ -22,7 +22,7 @@ res="MISSED"
 for c in $prop $extra; do
   for side in a b; do
     wt=$a; [ $side = b ] && wt=$b
-    (cd /tmp && VERIF_REPO=$wt VERIF_EVIDENCE_DIR=/tmp/sc-$$-ev /venv/bin/python /verif/vcheck $c --tier ${TIER:-quick} --jobs ${JOBS:-4} 2>/dev/null | grep -o 'kind=[^ ]* mech=[^ ]*' | sort -u > /tmp/sc-$$-$c-$side.txt)
+    (cd /tmp && VERIF_REPO=$wt VERIF_EVIDENCE_DIR=/tmp/sc-$$-ev /venv/bin/python ${VERIF_HOME:-/verif}/vcheck $c --tier ${TIER:-quick} --jobs ${JOBS:-4} 2>/dev/null | grep -o 'kind=[^ ]* mech=[^ ]*' | sort -u > /tmp/sc-$$-$c-$side.txt)
   done
   new=$(comm -13 /tmp/sc-$$-$c-a.txt /tmp/sc-$$-$c-b.txt | head -3 | tr '\n' ';')
   if [ -n "$new" ]; then res="CAUGHT by $c: $new"; break; fi
